@@ -36,7 +36,7 @@ ASSUMPTIONS = [
 ]
 CORR = ["flip", "flip", "flip", "other-key", "window", "reparent", "wrong-root", "swap-certs",
         "p384-leaf", "k1-leaf", "p384-inter", "boundary-window", "rekey-att", "bundled-root",
-        "reparent-resigned", "reparent-resigned"]
+        "reparent-resigned", "reparent-resigned", "self-issued"]
 KNOWN_SIG = "quote-certified-directly-by-x509-accepted"
 FLIP_FIELDS = {"quote": ["message", "custom_data", "signature"],
                "attestation": ["message", "key", "auth_data", "signature"]}
@@ -223,6 +223,15 @@ def apply(c):
                     nm, v.keys[nm].public_key(), "root" if new == "sgx_root" else new,
                     v.keys[new], windows.get(nm, "valid"))))
                 labels.append("reparent-resigned:x509-skips-issuer")
+        elif kind == "self-issued":
+            # a certificate of the chain is replaced by a self-signed one over the SAME key
+            # (issuer name = its own name): everything below it still verifies, it does not
+            nm = v.chain[k["el"] % len(v.chain)]
+            if not claim(nm):
+                continue
+            els[nm]["message"] = certs.der_to_b64(certs.cert_der(certs.make_cert(
+                nm, v.keys[nm].public_key(), nm, v.keys[nm], windows.get(nm, "valid"))))
+            broken.add(nm)
         elif kind == "wrong-root":
             if not claim(v.chain[-1]):
                 continue
